@@ -130,6 +130,8 @@ def check_C01(tier, seed):
     # reference to a derived object, derived static type converted on the fly, final, shared), under direct and indirect policies
     hs = [vptr_script(rng, "c01-vp-%d" % i, VP_POLICIES) for i in range(150 if tier == "quick" else 3000)]
     F.execute_and_validate("C01", exe, hs, out, "c01-vp", TCFG)
+    # many definitions in one method (beyond the width of a machine word), real classes through the front end
+    wide_programs("C01", rng, out, 2 if tier == "quick" else 12, tier)
     # the stock debug configuration with its trace facet switched on (YOMM2_TRACE=1): tracing must not change anything
     tr = []
     for s in scs[:150 if tier == "quick" else 1500]:
@@ -352,8 +354,10 @@ def check_C17(tier, seed):
         classes = list(range(1, n + 1))
         for i, reg in enumerate(regs):
             # every assignment of abstract flags for small universes, a sample otherwise
-            if tier == "thorough" or n <= 3:
+            if n <= 3 or (tier == "thorough" and len(regs) * (1 << n) <= 400000):
                 masks = range(1 << n)
+            elif tier == "thorough":
+                masks = sorted(set([0, (1 << n) - 1] + [rng.randrange(1 << n) for _ in range(8)]))
             else:
                 masks = sorted(set([0] + [rng.randrange(1 << n) for _ in range(3)]))
             for mask in masks:
@@ -601,7 +605,11 @@ def real_class_programs(pid, regs, rng, out, nprog, tier, per=8, staged=None):
             # policies: 0 default, 1 derived from it by rebind, 2 hand-assembled with a pointer map, 3 custom ids that differ
             # only above bit 31 (perfect hash), 4 deferred custom ids (pointer map)
             rng.shuffle(dd)     # the order of the definitions in the source is the order of their registration
-            style = {"pol": rng.choice([0, 0, 1, 2, 3, 4, 5]) if si >= 2 and not staged else 0, "reg": {}, "cuts": {}, "meth": {}, "def": {}, "call": {},
+            # (6: small custom integer ids; the first scenario of a program takes it every other time, so that id 0 exists)
+            pol = 0
+            if not staged:
+                pol = rng.choice([0, 0, 1, 2, 3, 4, 5]) if si >= 2 else (6 if si == 0 else 0)
+            style = {"pol": pol, "reg": {}, "cuts": {}, "meth": {}, "def": {}, "call": {},
                      "late_reg": rng.random() < 0.4}
             for i, st in enumerate(statements):
                 style["reg"][i] = rng.choice(["classes", "classes", "use", "decl", "nested", "nested"])
@@ -639,6 +647,52 @@ def real_class_programs(pid, regs, rng, out, nprog, tier, per=8, staged=None):
         F.validate_program_outputs(pid, res2, {k + "_dbg": v for k, v in sources.items()}, out, pid.lower() + "-real-dbg",
                                    {"C17": "TraceYomm2_report.cfg", "C02": "TraceYomm2_errrec.cfg"}.get(pid, "TraceYomm2_plain.cfg"), "TraceYomm2.tla")
     out.notes.append("%d generated programs with real class hierarchies (x %d scenarios each)" % (len(sources), per))
+
+
+def wide_programs(pid, rng, out, nprog, tier):
+    """One method with many definitions (more than 64: the width of a machine word) on a lattice of nine real classes:
+    a two-parameter method defined for most of the 81 pairs, a one-parameter method defined for every class."""
+    sys_path_gen()
+    import gen
+    import lattice_emit as LE
+    sources = {}
+    for pi in range(nprog):
+        n = 9
+        classes = list(range(11, 11 + n))
+        edges = []
+        for i, c in enumerate(classes[1:], 1):      # a random tree with some second bases: bases come first in the numbering
+            b = classes[rng.randrange(0, i)]
+            edges.append((c, b))
+            if i > 2 and rng.random() < 0.3:
+                b2 = classes[rng.randrange(0, i)]
+                if b2 != b and (c, b2) not in edges:
+                    edges.append((c, b2))
+        anc = S.anc_closure(edges, classes)
+        # keep the graph reduced (a direct base that is also an indirect one is dropped)
+        edges = [(d, b) for d, b in edges if not any(b in anc[x] and x != b for dd, x in edges if dd == d and x != b)]
+        anc = S.anc_closure(edges, classes)
+        root = classes[0]
+        cov = [c for c in classes if root in anc[c]]
+        methods = [(1, [root, root]), (2, [root])]
+        defs = []
+        d = 0
+        for a in cov:
+            for b in cov:
+                if rng.random() < 0.92:
+                    defs.append((1, d, [a, b]))
+                    d += 1
+        for i, c in enumerate(cov):
+            defs.append((2, i, [c]))
+        rng.shuffle(defs)
+        style = {"pol": rng.choice([0, 2, 5]), "reg": {0: rng.choice(["classes", "use"])}, "cuts": {}, "meth": {}, "def": {}, "call": {}}
+        for m, dd, vp in defs:
+            style["def"][(m, dd)] = rng.choice(["plain", "plain", "api_next", "box"])
+        shapes = {1: rng.choice(["VV", "VNV", "PV"]), 2: rng.choice(["V", "NV", "P"])}
+        name = "wide%d" % pi
+        sources[name] = LE.program(name, [(0, classes, edges, [list(classes)], methods, defs, [], shapes, style)])
+    res = gen.build_and_run(sources, extra=(["-DNDEBUG"] if tier == "quick" else []))
+    F.validate_program_outputs(pid, res, sources, out, pid.lower() + "-wide", "TraceYomm2_plain.cfg", "TraceYomm2.tla")
+    out.notes.append("%d generated programs with a method of more than 64 definitions (nine real classes)" % len(sources))
 
 
 def staged_run(pid, sources, stages, out, tier):
@@ -839,7 +893,7 @@ def history_script_shapes(sid, bindings, hist, mpool, npol, every):
 
 FLAVOURS = {
     "std": ["stdd", "stdr", "stdmap"],
-    "custom": ["fast", "chk", "vec", "map", "ind", "old", "wide", "widemap"],
+    "custom": ["fast", "chk", "vec", "map", "ind", "old", "wide", "widemap", "small", "smallchk"],
     "projected": ["prj", "prjmap"],
     "deferred": ["dfr", "dfrh"],
 }
